@@ -244,8 +244,27 @@ def handle (toks : List String) : String :=
         else check model [("single", showJson cfg mode (jFeed cfg jInit xs))]
       | none => "bad-op"
     | _, _, _ => "bad-op"
-  | "csv" :: _ => "SKIP"
+  | ["csv", bs, header, ncols, hex, chunks] =>
+    match bs.toNat?, header.toNat?, ncols.toNat?, parseHex hex, parseList String.toNat? chunks with
+    | some bs, some header, some ncols, some xs, some sizes =>
+      match splitChunks xs sizes with
+      | some cs =>
+        let cfg : CsvCfg := ⟨ncols, bs⟩
+        let sh (r : CsvState × List (List Row)) : String :=
+          let fin := csvFinish cfg r.1
+          let batches := r.2 ++ fin.1
+          let cell (f : Bytes) : String := if f.isEmpty then "N" else toHex f
+          s!"rows={showList (fun (b : List Row) => toString b.length) batches} r={if fin.2 then "ERR" else "ok"} v={showList cell batches.flatten.flatten}"
+        let model := sh (runChunks (csvFeed cfg) (csvInit header) cs)
+        -- the byte-at-a-time reference applies unless the input starts with a UTF-8 BOM
+        -- (csv-core strips a BOM only if the first buffer holds all three bytes of it)
+        if xs.take 3 = csvBom then model
+        else check model [("bytewise", sh (runBytes (csvStep cfg) (csvInit header) xs)), ("single", sh (csvFeed cfg (csvInit header) xs))]
+      | none => "bad-op"
+    | _, _, _, _, _ => "bad-op"
   | "ipcx" :: _ => "SKIP"
+  | "pqmeta" :: _ => "SKIP"
+  | "flight" :: _ => "SKIP"
   | ["avro", _bs, hex, chunks, hdr] =>
     -- OCF file: the model covers the block region after the header; the chunk boundaries the
     -- `BlockDecoder` sees are those of the file chunks that lie behind the header
